@@ -443,6 +443,67 @@ theorem C22_total_wal_open (H : Bytes → Bytes) (file : Bytes) (offset size ckS
   refine Safe_bind (addP_safe (by rw [hmod]; omega)) fun _ _ => ?_
   split <;> rfl
 
+theorem walAppendGuards_safe (ro : Bool) (size pending writeHead payloadLen : Nat)
+    (hp : pending < 2^63) (hw : writeHead < 2^63) : (walAppendGuards ro size pending writeHead payloadLen).Safe := by
+  unfold walAppendGuards
+  rw [EHS_eq]
+  split; · rfl
+  split; · rfl
+  refine Safe_bind (addP_safe (by omega)) fun es hes => ?_
+  obtain ⟨hes, _⟩ := addP_ok hes
+  split; · rfl
+  refine Safe_bind (addP_safe (by omega)) fun _ _ => ?_
+  split; · rfl
+  refine Safe_bind (addP_safe (by omega)) fun _ _ => ?_
+  split <;> rfl
+
+/-- **C22_wal_append_crash_iff** — `EmbeddedWal::append_entry` (state of an opened WAL: pending bytes and
+    write head below `2^63`) panics exactly when the source adds unchecked, every capacity test passes and
+    the current sequence number is `u64::MAX`. -/
+theorem C22_wal_append_crash_iff (checked ro : Bool) (size pending writeHead sequence payloadLen : Nat)
+    (hp : pending < 2^63) (hw : writeHead < 2^63) :
+    ¬ (walAppendWith checked ro size pending writeHead sequence payloadLen).Safe ↔
+      checked = false ∧ walAppendGuards ro size pending writeHead payloadLen = .ok () ∧ sequence + 1 ≥ 2^64 := by
+  unfold walAppendWith
+  have hg := walAppendGuards_safe ro size pending writeHead payloadLen hp hw
+  cases hr : walAppendGuards ro size pending writeHead payloadLen with
+  | ok u =>
+    simp only [bind_ok]
+    cases checked
+    · simp only [Bool.false_eq_true, if_false, addP]
+      split
+      · constructor
+        · intro hc; exact absurd (safe_ok _) hc
+        · intro ⟨_, _, h⟩; omega
+      · constructor
+        · intro _; exact ⟨trivial, trivial, by omega⟩
+        · intro _; exact not_safe_panic _
+    · simp only [if_true]
+      constructor
+      · intro hc; exfalso; apply hc; split <;> rfl
+      · intro ⟨h, _⟩; cases h
+  | err e =>
+    simp only [bind_err]
+    constructor
+    · intro hc; exact absurd (safe_err _) hc
+    · intro ⟨_, h, _⟩; cases h
+  | panic w => rw [hr] at hg; exact absurd hg (not_safe_panic w)
+  | abort w => rw [hr] at hg; exact absurd hg (not_safe_abort w)
+  | hang => rw [hr] at hg; exact absurd hg not_safe_hang
+
+theorem walAppend_safe (h : Gen.C22.WAL_APPEND_SEQ_CHECKED = true) (ro : Bool) (size pending writeHead sequence payloadLen : Nat)
+    (hp : pending < 2^63) (hw : writeHead < 2^63) : (walAppend ro size pending writeHead sequence payloadLen).Safe := by
+  apply Classical.byContradiction
+  intro hc
+  unfold walAppend at hc
+  have := (C22_wal_append_crash_iff _ _ _ _ _ _ _ hp hw).mp hc
+  rw [h] at this; exact absurd this.1 (by decide)
+
+/-- the one-edit witness: a fresh 64 KiB WAL whose header says `wal_sequence = u64::MAX` -/
+example : walAppendWith false false 65536 0 0 (2^64 - 1) 100 = .panic "add-overflow" := by decide
+example : walAppendWith true false 65536 0 0 (2^64 - 1) 100 = .err "sequence" := by decide
+example : walAppendWith false false 65536 0 0 7 100 = .ok 8 := by decide
+
 /-! ### D8 time index -/
 
 /-- **C22_time_index_crash_iff** — `read_track` crashes exactly when it reaches the pre-allocation
